@@ -73,6 +73,16 @@ func runC05(c *Collector, r *Rng, thorough bool) {
 				c.Dist["valid-rejected/"+kind]++
 			}
 			c05Oracle(c, kind, base, &d)
+			// the whole item wrapped in the self-described tag 55799, once or twice: not "exactly one item of that shape"
+			if kind != "DProt" && kind != "DUnprot" && i%4 == 0 {
+				for _, pre := range []string{"d9d9f7", "d9d9f7d9d9f7"} {
+					wrapped := append(unhex(pre), base...)
+					wd := decodeCase(c, "selfdescribed-prefix/"+kind, kind, wrapped)
+					if wd.err == nil && !wd.paniced {
+						c.Fail("C05/accepted-malformed", fmt.Sprintf("%s decoder accepted its structure wrapped in tag 55799 (%d times)", kind, len(pre)/6), map[string]any{"data": hx(wrapped), "kind": kind})
+					}
+				}
+			}
 			// cross-kind: no decoder accepts another kind's encoding
 			other := pick(r, kinds[:4])
 			if other != kind && kind != "DProt" && kind != "DUnprot" {
